@@ -7,6 +7,7 @@ import PV.Model.History
 import PV.Model.Relabel
 import PV.Proofs.RealScalar
 import PV.Proofs.C03Lemmas
+import PV.Proofs.C03bLemmas
 
 namespace PV
 open Scalar
@@ -209,5 +210,44 @@ theorem c03_tau_ge_half (fp : FpConsts ℝ) (ens : String) (reps : List (Rep ℝ
               mul_nonneg (Real.sqrt_nonneg _) (Real.sqrt_nonneg _)⟩
 end real
 
+
+
+section rescaling
+open PV.C03b
+
+/-- C03 (multiplying the data by c): in the Gamma method of the specification (which `c02_formulas` shows
+    the model of the code to compute), multiplying every fluctuation of an ensemble by `c ≠ 0` leaves
+    τ_int, its error, the summation window, ρ, δρ and every τ_int(W) unchanged and multiplies the error
+    and the error of the error by |c| — for every chain layout, S, τ_exp and N_σ.  The two hypotheses
+    say that neither data set falls under the implementation's zero-variance guard
+    (Γ(0) < 10·tiny), where the analysis deliberately reports zero error. -/
+theorem c03_scale_data (fp : FpConsts ℝ) (ens : String) (reps : List (Rep ℝ)) (gap : Int) (wmax : Nat)
+    (S te ns c : ℝ) (hc : c ≠ 0) (hw : 1 ≤ wmax)
+    (hg1 : ¬ absS (Spec.gamma reps gap 0) < fp.tenTiny)
+    (hg2 : ¬ absS (c ^ 2 * Spec.gamma reps gap 0) < fp.tenTiny) :
+    Spec.ensemble fp ens (reps.map (scaleRep c)) gap wmax S te ns
+      = (Spec.ensemble fp ens reps gap wmax S te ns).map (scaleRes |c|) :=
+  ensemble_scale fp ens reps gap wmax S te ns c hc hw hg1 hg2
+
+/-- what `scaleRes` leaves alone and what it scales -/
+theorem c03_scaleRes_fields (s : ℝ) (r : EnsResult ℝ) :
+    (scaleRes s r).tauint = r.tauint ∧ (scaleRes s r).dtauint = r.dtauint ∧
+    (scaleRes s r).windowsize = r.windowsize ∧ (scaleRes s r).rho = r.rho ∧ (scaleRes s r).drho = r.drho ∧
+    (scaleRes s r).nTauint = r.nTauint ∧ (scaleRes s r).dvalue = s * r.dvalue ∧
+    (scaleRes s r).ddvalue = s * r.ddvalue := ⟨rfl, rfl, rfl, rfl, rfl, rfl, rfl, rfl⟩
+
+/-- Γ(t) of the rescaled data is c²·Γ(t), for every lag and layout -/
+theorem c03_gamma_scale (c : ℝ) (reps : List (Rep ℝ)) (gap : Int) (t : Nat) :
+    Spec.gamma (reps.map (scaleRep c)) gap t = c ^ 2 * Spec.gamma reps gap t := gamma_scale c reps gap t
+
+/-- C03 (adding a constant to the data): the fluctuations the constructor stores (sample minus
+    replica mean) do not change, and the replica mean moves by the constant; the analysis, which reads
+    only fluctuations and configuration numbers (`c03_frame`), is therefore unchanged -/
+theorem c03_addconst (s : List ℝ) (c : ℝ) (hs : s ≠ []) :
+    (s.map (· + c)).map (· - mean (s.map (· + c))) = s.map (· - mean s) ∧
+    mean (s.map (· + c)) = mean s + c :=
+  ⟨addconst_fluct s c hs, mean_add_const s c hs⟩
+
+end rescaling
 
 end PV
